@@ -5,6 +5,7 @@
   span capture may contain `nested_in`, to any depth). Theorems are for every two-level grammar, every token tree (the group
   table is arbitrary), every mode, state and fuel.
 -/
+import ChumskyModel.Proofs.Lemmas.NestedOk
 import ChumskyModel.Proofs.Lemmas.NestedRefine
 import ChumskyModel.Proofs.Lemmas.NestedHole
 import ChumskyModel.Proofs.Lemmas.NestedMode
@@ -232,6 +233,32 @@ example :
       | _ => (false, 99, 0)) = (true, 0, 3) := by
   decide +kernel
 
+/-- **C16, anatomy of a successful nested parse in a grammar with extensions** (reading): extension `k` being `a.nested_in(b)`,
+    a success means — `b` succeeded at the outer position and yielded a group token; `a` (read by `pegE` again: it may contain
+    Pratt expressions and further nested parses) succeeded on the children from inner position 0 and ended where the inner
+    input ends (it matched the inner input COMPLETELY); the outer input advanced by exactly what `b` consumed; the emissions
+    are `b`'s followed by the inner ones, re-homed just after the group -/
+theorem c16_extensions_anatomy (e : EEnv) (n : Nat) (env : Env) (g a b : G) (hf : e.find g = some (.nested a b)) (s : SS)
+    (ctx : Val) {v s' em} (hok : pegE e (n + 2) env g s ctx = .ok v s' em) :
+    ∃ (vb : Val) (s1 : SS) (e1 : List Emis) (kids : List Nat) (si1 : SS) (e2 : List Emis) (si : SS) (e3 : List Emis),
+      pegE e (n + 1) env b s ctx = .ok vb s1 e1 ∧ (e.henv a b).kidsOf vb = some kids ∧
+      pegE e (n + 1) ((e.henv a b).innerEnv env kids) a ⟨0, s1.insp⟩ ctx = .ok v si1 e2 ∧
+      ((e.henv a b).innerEnv env kids).toks[si1.pos]? = none ∧
+      s' = ⟨s1.pos, si.insp⟩ ∧ si.insp = si1.insp ∧ em = e1 ++ rehomeEm s1.pos (e2 ++ e3) := by
+  simp only [pegE, hf] at hok
+  obtain ⟨vb, s1, e1, kids, si, e2', hb, hk, hi, hs, he⟩ := nestedStepS_ok _ _ _ _ _ hok
+  obtain ⟨si1, e2, ve, e3, ha, hend, hee⟩ := innerThenEndS_ok hi
+  refine ⟨vb, s1, e1, kids, si1, e2, si, e3, hb, hk, ha, ?_, hs, ?_, by rw [he, hee]⟩
+  · simp only [EEnv.find, pegStep] at hend
+    cases ht : ((e.henv a b).innerEnv env kids).toks[si1.pos]? with
+    | none => rfl
+    | some t => rw [ht] at hend; simp at hend
+  · simp only [EEnv.find, pegStep] at hend
+    cases ht : ((e.henv a b).innerEnv env kids).toks[si1.pos]? with
+    | none => rw [ht] at hend; simp at hend; rw [← hend.2.1]
+    | some t => rw [ht] at hend; simp at hend
+
+#print axioms c16_extensions_anatomy
 #print axioms c16_with_pratt_refines
 #print axioms c16_with_pratt_parse
 #print axioms c16_with_pratt_check_eq_emit
